@@ -29,6 +29,7 @@ struct Report {
 };
 
 void process_setup(const char *argv0);
+void enable_shipped_full_mem_model(); // a second 2 GiB dataset for the fresh-object model (dedicated thorough runs only)
 Report execute(const ops::Plan &plan, const Options &opt);
 std::string report_to_json(const Report &r, const ops::Plan &plan, bool with_plan);
 
